@@ -137,6 +137,21 @@ def loops_to_comprehensions(fn, stats: Dict[str, int]) -> None:
                         if isinstance(prev, ast.Assign) and len(prev.targets) == 1 and isinstance(prev.targets[0], ast.Name):
                             name = prev.targets[0].id
                             kind = _empty_kind(prev.value)
+                            if kind is None and isinstance(prev.value, (ast.ListComp, ast.List)) and _mentions(st, name):
+                                # the list already holds something: the accumulating loop becomes `X.extend(<generator>)`
+                                acc = _accumulation(st, name, "list")
+                                if acc is not None:
+                                    elt, gens = acc
+                                    tv = _loop_targets(gens)
+                                    if not any(isinstance(n, ast.Name) and n.id in tv and isinstance(n.ctx, ast.Load) for x in b[i + 1:] for n in ast.walk(x)):
+                                        call = ast.Expr(value=ast.Call(func=ast.Attribute(value=ast.Name(id=name, ctx=ast.Load()), attr="extend", ctx=ast.Load()),
+                                                                       args=[ast.GeneratorExp(elt=elt, generators=gens)], keywords=[]))
+                                        ast.copy_location(call, st)
+                                        ast.fix_missing_locations(call)
+                                        b[i] = call
+                                        stats["loop2comp"] += 1
+                                        done = True
+                                break
                             if kind and not any(_mentions(x, name) for x in b[j + 1:i]):
                                 acc = _accumulation(st, name, kind)
                                 if acc is not None:
